@@ -57,6 +57,10 @@ NOTES = {
  "C11-r2-2": "missed by C11, caught by C13 (a capacity shed is request-local: never recorded, never served to others)",
  "C11-r2-3": "missed at first (no reply was ever refused by the kernel); caught by C10 and C11 after bursts holding a destination the kernel refuses (raw-socket source port 0): nobody may see a second copy",
  "C19-r2-2": "missed at first (the refresh scenario only used a shared entry); caught after the scoped variants: a hit on an entry stored under an ECS scope must not reach upstream in the background",
+ "C08-r3-3": "missed at first (LeasePipe.tla had one positive name that every child version holds, every query was atomic so no write ever met a cut deadline in the past, the oracle skipped replies without an A record); caught by the denied-subtree family (KindSet / Lats / QueryX: a validated NXDOMAIN held back past its 1 s lease, the re-pointed child has the subtree, mutant CutAdmitsPast) replayed in real time: an NXDOMAIN whose SOA names the withdrawn version, served after its lease for a name the current version has",
+ "C12-r3-2": "missed at first (ipv6access was off in every topology run, counting stopped when the reply was out, ResolveWork.tla ended at the reply); caught by ResolveWork.tla v6 / jobs (detached nameserver-address jobs that outlive the reply and debit the tree's ledger, mutant DetachedFresh) and the topology tier counting packets at the scripted servers until the resolver's detached-job count is back to 0",
+ "C19-r3-1": "missed at first (the denial tier sent one subnet option shape, family 1 /24); caught by EcsDenial.tla Shapes = {v4, v6, zero, empty}: a wire-born query carrying the RFC 7871 empty option (family 0, prefix 0) is a query that carried ECS, stub tier and resolver tier",
+ "C19-r3-3": "missed at first (the denial tier had a stub in the resolver's place: the Store the resolver reads for its private DS / DNSKEY look-ups was never a site); caught by EcsDenial.tla Birth + the resolver tier: the denied subtree becomes a signed delegation while the cut lives, an ECS tree's DNSKEY read must get past the cut (the cache's own synthesised-hit counters must not move during an ECS / CD client's request)",
  "C20-r2-1": "missed at first; caught after one case in three is served as the worker's replay pass (Chain.SetReplay)",
  "C20-r2-3": "missed at first; caught after the well-known prefix is also configured as the fallback of an omitted / all-unusable prefix list",
 }
